@@ -27,6 +27,21 @@ class SimBaseFault(BaseException):
     """Injected failure that is not an Exception (stands for timeouts/cancellations derived from BaseException)."""
 
 
+class ExoticRuntimeError(RuntimeError):
+    """RuntimeError subclass whose constructor needs three arguments (like scipy's ArpackNoConvergence)."""
+
+    def __init__(self, msg, eigenvalues, eigenvectors):
+        super().__init__(msg)
+        self.eigenvalues, self.eigenvectors = eigenvalues, eigenvectors
+
+
+class ExoticError(Exception):
+    """Exception subclass with a keyword-only constructor."""
+
+    def __init__(self, *, message):
+        super().__init__(message)
+
+
 FAULT_KINDS = {"SimFault": SimFault, "ValueError": ValueError, "RuntimeError": RuntimeError,
                "MemoryError": MemoryError, "KeyboardInterrupt": KeyboardInterrupt, "SimBaseFault": SimBaseFault,
                "SystemExit": SystemExit,
@@ -34,7 +49,31 @@ FAULT_KINDS = {"SimFault": SimFault, "ValueError": ValueError, "RuntimeError": R
                "KeyError": KeyError, "StopIteration": StopIteration, "IndexError": IndexError, "AttributeError": AttributeError,
                "TypeError": TypeError, "ZeroDivisionError": ZeroDivisionError, "AssertionError": AssertionError,
                "OSError": OSError, "LookupError": LookupError, "NotImplementedError": NotImplementedError,
-               "RecursionError": RecursionError, "GeneratorExit": GeneratorExit}
+               "RecursionError": RecursionError, "GeneratorExit": GeneratorExit,
+               "ExoticRuntimeError": ExoticRuntimeError, "ExoticError": ExoticError}
+
+
+def raw_fingerprint(v):
+    """Fingerprint of a caller-owned object including its raw buffers (a compaction of a sparse structure or a changed
+    dtype is a modification even if the dense content is the same)."""
+    import hashlib
+
+    from scipy import sparse
+
+    h = hashlib.sha256()
+    if sparse.issparse(v):
+        h.update(v.format.encode())
+        for name in ("data", "indices", "indptr", "row", "col", "offsets"):
+            a = getattr(v, name, None)
+            if a is not None:
+                a = np.ascontiguousarray(a)
+                h.update(name.encode() + str(a.dtype).encode() + str(a.shape).encode() + a.tobytes())
+        return h.hexdigest()[:16]
+    if isinstance(v, np.ndarray) and v.dtype != object:
+        a = np.ascontiguousarray(v)
+        h.update(str(a.dtype).encode() + str(a.shape).encode() + a.tobytes())
+        return h.hexdigest()[:16]
+    return fingerprint(norm(v))
 
 
 def leq(m, n):
@@ -113,7 +152,13 @@ class Env:
         if fault is None:
             return
         self.nfault += 1
-        exc = FAULT_KINDS[fault["kind"]](f"injected fault #{self.nfault} at {kind}{key}")
+        msg = f"injected fault #{self.nfault} at {kind}{key}"
+        if fault["kind"] == "ExoticRuntimeError":
+            exc = ExoticRuntimeError(msg, [], [])
+        elif fault["kind"] == "ExoticError":
+            exc = ExoticError(message=msg)
+        else:
+            exc = FAULT_KINDS[fault["kind"]](msg)
         self.fired.append(exc)
         self.events.append(("fault", fault["kind"], bool(fault.get("sticky_hit"))))
         self.counts["fault_" + fault["kind"]] = self.counts.get("fault_" + fault["kind"], 0) + 1
@@ -398,7 +443,20 @@ class Inputs:
             if w["domain"] == "sparse":
                 from scipy import sparse
 
-                self.full = {o: sparse.csr_array(v) for o, v in self.full.items()}
+                def to_csr(v):
+                    m = sparse.coo_array(v)
+                    if w.get("stored_zeros"):
+                        # a few explicitly stored zeros at positions where the matrix vanishes (symmetric pattern)
+                        empty = np.argwhere(np.triu(v == 0))
+                        if len(empty):
+                            pick = empty[rg.choice(len(empty), size=min(len(empty), 3), replace=False)]
+                            rows = np.concatenate([m.row, pick[:, 0], pick[:, 1]])
+                            cols = np.concatenate([m.col, pick[:, 1], pick[:, 0]])
+                            data = np.concatenate([m.data, np.zeros(2 * len(pick), dtype=m.data.dtype)])
+                            m = sparse.coo_array((data, (rows, cols)), shape=v.shape)
+                    return sparse.csr_array(m)
+
+                self.full = {o: to_csr(v) for o, v in self.full.items()}
         # interleaved subspace labels (e.g. [0, 1, 0, 2, 1]) instead of contiguous blocks; order inside a block is kept
         if w.get("interleave") and w["fmt"] in ("scalar_idx", "dict", "list", "symkeys", "sympy_expr"):
             labels = np.array(self.idx)
@@ -648,6 +706,15 @@ class Sim:
             self.user_series.append(self.h_root)
 
     # ---- custom solvers (caller supplied)
+    def audit_objects(self):
+        objs = dict(self.inp.audit_objects())
+        if self.w["fmt"] == "nested" and isinstance(self.H, dict):
+            for o, rows in self.H.items():
+                for i, row in enumerate(rows):
+                    for j, blk in enumerate(row):
+                        objs[("nested", o, i, j)] = blk
+        return objs
+
     def _custom_solver(self, legacy):
         from scipy import sparse
 
@@ -997,7 +1064,7 @@ class GraphProp:
                     cell_keys.append((c, s, pos[0], pos[1], tuple(pos[2:])))
                 id_arrays[(c, s)] = arr
         views = {}
-        audit_in = {k: fingerprint(norm(v)) for k, v in sim.inp.audit_objects().items()}
+        audit_in = {k: raw_fingerprint(v) for k, v in sim.audit_objects().items()}
         handed = []
         user_seen = {}  # elements of the caller's own series, fingerprinted when first seen
         hist = {}  # (series name, index) -> 1 present, 2 evicted, 3 recomputed
@@ -1221,8 +1288,8 @@ class GraphProp:
                         fail("fresh-single-vs-walk", f"{key}: a fresh computation asked for this element only gives {self._show_n(alone)}, the ascending walk of a fresh computation gives {self._show_n(table[key])}")
                         break
         if violation is None and self.check_mutation:
-            for k, v in sim.inp.audit_objects().items():
-                if fingerprint(norm(v)) != audit_in[k]:
+            for k, v in sim.audit_objects().items():
+                if raw_fingerprint(v) != audit_in[k]:
                     fail("input-mutated", f"caller-owned input {k} changed during the run")
                     break
             for what, obj, fp in handed:
@@ -1497,7 +1564,7 @@ class GraphProp:
              "zero_level": bool(nb >= 2 and domain in ("dense", "sparse") and r.random() < 0.12),
              "p_sparse": r.choice([0.0, 0.3, 0.5, 0.7]) if domain == "sparse" else 0.0,
              "sparse_fmts": r.choice([["csr"], ["csr"], ["csc"], ["coo", "csr"], ["csr", "dia", "csc"]]) if domain == "sparse" else None,
-             "atol": r.choice([None, None, None, 1e-10, 1e-14]),
+             "atol": r.choice([None, None, None, 1e-10, 1e-14]), "stored_zeros": bool(domain == "sparse" and r.random() < 0.4),
              "view_input": r.random() < 0.15, "h_recur": r.random() < 0.15, "sectors": bool(nb >= 3 and domain in ("dense", "sparse") and r.random() < 0.25),
              "cap": profile.get("max_total", {1: 4, 2: 3, 3: 2})[npert] if domain != "sym" else 3}
         if fmt == "scalar_vecs":
